@@ -1,4 +1,5 @@
 import Poly.Proofs.LedgerChain
+import Poly.Proofs.LedgerHash
 /-!
 # C13 — The ledger only grows by valid successors
 
@@ -148,6 +149,27 @@ theorem chain_inv (p : Params) (g : Block) (hg : g.header.height = 0) (s : State
   have hc := reachV_chain p g hg s h
   exact ⟨hc.tip, hc.stored, hc.linked, hc.acc, hc.bounded⟩
 
+/-- **Chain invariant with the collision alternative.** For histories whose blocks and headers are views of
+well-formed wire headers — hash = `H (H (unsigned serialization))` with the serialization schema of C02
+(`headerUnsignedTy`), height and timestamp being hashed fields — no collision-freedom has to be assumed: either the
+hash function collides (the proof exhibits the pair: two serializations or their inner hashes), or the chain invariant
+holds. -/
+theorem chain_inv_or_collision (p : Params) (K : Bytes → Option Bytes) (g : Block) (hg : g.header.height = 0)
+    (s : State) (h : ReachW p K g s) :
+    Poly.Spec.RFC6962.Collision p.H ∨
+    (s.dur.blocks.hashAt s.mem.currHeight = some s.mem.currHash ∧
+    (∀ i, i ≤ s.mem.currHeight → ∃ blk, s.dur.blocks.hashAt i = some blk.header.hash ∧
+      s.dur.blocks.blockAt blk.header.hash = some blk ∧ blk.header.height = i) ∧
+    (∀ i bi bj, i < s.mem.currHeight →
+      s.dur.blocks.hashAt i = some bi.header.hash → s.dur.blocks.blockAt bi.header.hash = some bi →
+      s.dur.blocks.hashAt (i + 1) = some bj.header.hash → s.dur.blocks.blockAt bj.header.hash = some bj →
+      bj.header.prev = bi.header.hash ∧ bi.header.timestamp < bj.header.timestamp) ∧
+    s.mem.blockTree = g.header.prev :: (List.range s.mem.currHeight).map (fun i => (s.dur.blocks.hashAt i).getD []) ∧
+    (∀ x blk, s.dur.blocks.blockAt x = some blk → blk.header.hash = x ∧ blk.header.height ≤ s.mem.currHeight)) := by
+  rcases reachW_reachV p K g hg s h with hc | ⟨hv, -⟩
+  · exact Or.inl hc
+  · exact Or.inr (chain_inv p g hg s hv)
+
 /-- **The block root of a committed block is the accumulator root over all earlier block hashes** (genesis parent,
 then the hashes of blocks 0 … height−1 as the block store lists them), on every ledger reached by such a history. -/
 theorem committed_root_over_all_earlier_hashes (p : Params) (g : Block) (hg : g.header.height = 0) (s s' : State)
@@ -194,6 +216,16 @@ example : ReachV p2 g2 s2 ∧
     verdict2 (addBlock p2 s2 (blk2 [7] 11 [1, 2, 3]) (executeBlock p2 s2 good2).2) = (some .blockroot, 0) ∧
     verdict2 (addBlock p2 s2 g2 []) = (none, 0) :=
   ⟨ReachV.init init2_ok, by decide, by decide, by decide, by decide, by decide⟩
+
+/-- `Wired` is satisfiable: a well-formed unsigned wire header (schema of C02) and its ledger-level view -/
+def exUnsigned : Poly.Model.SchemaLedger.headerUnsignedTy.Val :=
+  ((0 : UInt32), (5 : UInt64), (List.replicate 32 1 : Bytes), (List.replicate 32 2 : Bytes), (List.replicate 32 3 : Bytes),
+   (List.replicate 32 4 : Bytes), (11 : UInt32), (1 : UInt32), (8 : UInt64), ([9] : Bytes), (List.replicate 20 0 : Bytes))
+
+example : Wired p2.H (fun _ => none)
+    { height := 1, hash := p2.H (p2.H (Poly.Model.SchemaLedger.headerUnsignedTy.enc exUnsigned)), prev := List.replicate 32 1,
+      timestamp := 11, blockRoot := List.replicate 32 4, bookkeepers := [], sigs := [], newCfg := none, lastCfg := 0 } :=
+  ⟨exUnsigned, Poly.Model.Schema.Ty.wfb_sound _ _ exUnsigned (by decide), rfl, by decide, by decide⟩
 
 end Example
 
